@@ -139,6 +139,11 @@ type Input struct {
 	NNodes     int           `json:"nnodes"`      // secondary beacon nodes of the block relay
 	NPrepNodes int           `json:"nprep_nodes"` // beacon nodes of the proposal preparer
 	Fallback   uint64        `json:"fallback"`
+	// Addressing says how the relays' addresses are written (see relayAddress): "" = one host per
+	// relay (as before); "path" / "root+path" / "userinfo" / "scheme" / "port" = the relays are
+	// distinct addresses on ONE host (relays behind one proxy, told apart by path, user info,
+	// scheme or port).  The model knows relays by number: distinct numbers are distinct addresses.
+	Addressing string `json:"addressing,omitempty"`
 	Ops        []Op          `json:"ops"`
 	Trace      bool          `json:"trace,omitempty"`
 	Tags       []string      `json:"tags,omitempty"`
@@ -268,20 +273,71 @@ func sigObs(sig phase0.BLSSignature) SigObs {
 	}
 }
 
-func relayAddress(id uint64, kind string) string {
+// sharedHost is the one host of the relays when Input.Addressing is not empty.
+const sharedHost = "relays.example"
+
+// trapRelay is the number under which requests are recorded that reach a client nobody configured:
+// clients injected under the keys an address could be "normalised" to (the bare host and the
+// like).  util.FetchBuilderClient is asked for the relay's full address, so nothing reaches them on
+// a tree that holds one client per relay address.
+const trapRelay = 99
+
+func relayAddress(id uint64, kind string, style string) string {
 	if kind == "noclient" {
 		// an address util.FetchBuilderClient cannot parse
 		return fmt.Sprintf("http://relay-%d.example:bad", id)
 	}
+	switch style {
+	case "path":
+		return fmt.Sprintf("http://%s:18550/relay-%d", sharedHost, id)
+	case "root+path":
+		if id == 1 {
+			return fmt.Sprintf("http://%s:18550", sharedHost)
+		}
+		return fmt.Sprintf("http://%s:18550/relay-%d", sharedHost, id)
+	case "userinfo":
+		if id == 1 {
+			return fmt.Sprintf("http://%s:18550", sharedHost)
+		}
+		return fmt.Sprintf("http://0x%096x@%s:18550", id, sharedHost)
+	case "scheme":
+		// http / https on one host and port, further relays by path
+		switch id {
+		case 1:
+			return fmt.Sprintf("http://%s:18550", sharedHost)
+		case 2:
+			return fmt.Sprintf("https://%s:18550", sharedHost)
+		}
+		return fmt.Sprintf("https://%s:18550/relay-%d", sharedHost, id)
+	case "port":
+		if id == 1 {
+			return fmt.Sprintf("http://%s", sharedHost)
+		}
+		return fmt.Sprintf("http://%s:%d", sharedHost, 18550+id)
+	}
 	return fmt.Sprintf("http://relay-%d.example:18550", id)
 }
 
-func relayID(address string) uint64 {
-	var id uint64
-	if _, err := fmt.Sscanf(address, "http://relay-%d.example", &id); err != nil {
-		return garbled
+// trapKeys are the cache keys a relay address of the style could be reduced to.
+func trapKeys(style string) []string {
+	if style == "" {
+		return nil
 	}
-	return id
+	return []string{
+		"http://" + sharedHost + ":18550", "https://" + sharedHost + ":18550",
+		"http://" + sharedHost + ":18550/", "https://" + sharedHost + ":18550/",
+		"http://" + sharedHost, "https://" + sharedHost, "http://" + sharedHost + "/", "https://" + sharedHost + "/",
+		sharedHost + ":18550", sharedHost, "//" + sharedHost + ":18550", "//" + sharedHost,
+	}
+}
+
+func relayID(address string, style string) uint64 {
+	for id := uint64(1); id <= 16; id++ {
+		if address == relayAddress(id, "ok", style) || address == relayAddress(id, "noclient", style) {
+			return id
+		}
+	}
+	return garbled
 }
 
 // zeroProposer is a proposer entry that parses (48 zero bytes) and that ProposerConfig refuses
@@ -470,7 +526,7 @@ func (c configurator) ProposerConfig(ctx context.Context, acc e2wtypes.Account, 
 		if err == nil && res != nil {
 			rec = &Resolved{Fee: feeID(res.FeeRecipient)}
 			for _, rc := range res.Relays {
-				rec.Relays = append(rec.Relays, RelayCfg{Addr: relayID(rc.Address), Fee: feeID(rc.FeeRecipient), Gas: rc.GasLimit})
+				rec.Relays = append(rec.Relays, RelayCfg{Addr: relayID(rc.Address, e.in.Addressing), Fee: feeID(rc.FeeRecipient), Gas: rc.GasLimit})
 			}
 		}
 		if acc == nil {
@@ -498,7 +554,7 @@ func (c configurator) ProposerConfig(ctx context.Context, acc e2wtypes.Account, 
 				}
 				res := &beaconblockproposer.ProposerConfig{FeeRecipient: feeAddr(e.in.Fallback)}
 				for _, a := range *r.Relays {
-					res.Relays = append(res.Relays, &beaconblockproposer.RelayConfig{Address: relayAddress(a, e.kindOf(a)), FeeRecipient: feeAddr(e.in.Fallback), GasLimit: 30000000})
+					res.Relays = append(res.Relays, &beaconblockproposer.RelayConfig{Address: relayAddress(a, e.kindOf(a), e.in.Addressing), FeeRecipient: feeAddr(e.in.Fallback), GasLimit: 30000000})
 				}
 				return res, nil
 			}
@@ -516,7 +572,7 @@ func (c configurator) ProposerConfig(ctx context.Context, acc e2wtypes.Account, 
 		res := &beaconblockproposer.ProposerConfig{FeeRecipient: feeAddr(vi.Res.Fee)}
 		for _, rc := range vi.Res.Relays {
 			res.Relays = append(res.Relays, &beaconblockproposer.RelayConfig{
-				Address: relayAddress(rc.Addr, e.kindOf(rc.Addr)), FeeRecipient: feeAddr(rc.Fee), GasLimit: rc.Gas,
+				Address: relayAddress(rc.Addr, e.kindOf(rc.Addr), e.in.Addressing), FeeRecipient: feeAddr(rc.Fee), GasLimit: rc.Gas,
 			})
 		}
 		return res, nil
@@ -599,10 +655,12 @@ func (r *relaySubmitter) SubmitValidatorRegistrations(ctx context.Context, opts 
 	}
 	e.mu.Lock()
 	defer e.mu.Unlock()
-	if _, dup := e.relays[r.id]; dup {
-		e.note("relay %d called twice in one operation", r.id)
+	// a second request to the same relay in one operation (the tree never makes one: it groups the
+	// registrations by relay address) arrives as well: the relay has then received both lists
+	regs := e.relays[r.id]
+	if regs == nil {
+		regs = []RegObs{}
 	}
-	regs := []RegObs{}
 	for _, vr := range opts.Registrations {
 		if vr == nil || vr.V1 == nil || vr.V1.Message == nil {
 			regs = append(regs, RegObs{Pub: garbled})
@@ -804,7 +862,7 @@ func runInBubble(t *testing.T, in Input) Obs {
 		if op.RealCfg != "" {
 			text := op.RealCfg
 			for a := uint64(1); a <= 4; a++ {
-				text = strings.ReplaceAll(text, fmt.Sprintf("@%d@", a), relayAddress(a, e.kindOf(a)))
+				text = strings.ReplaceAll(text, fmt.Sprintf("@%d@", a), relayAddress(a, e.kindOf(a), e.in.Addressing))
 			}
 			var ec v2.ExecutionConfig
 			if err := json.Unmarshal([]byte(text), &ec); err != nil {
@@ -832,7 +890,7 @@ func runInBubble(t *testing.T, in Input) Obs {
 			}
 			seen[addr] = true
 			kind := e.kindOf(addr)
-			base := relayBase{e: e, id: addr, addr: relayAddress(addr, kind)}
+			base := relayBase{e: e, id: addr, addr: relayAddress(addr, kind, in.Addressing)}
 			switch kind {
 			case "noclient":
 			case "nosubmitter":
@@ -858,6 +916,17 @@ func runInBubble(t *testing.T, in Input) Obs {
 		if op.RealCfg != "" {
 			for a := uint64(1); a <= 4; a++ {
 				inject(a)
+			}
+		}
+		// relays on one host: whatever is sent to a client held under a reduced form of a relay's
+		// address (and not under the address of a relay of this operation) is recorded at trapRelay
+		taken := map[string]bool{}
+		for a := range seen {
+			taken[relayAddress(a, e.kindOf(a), in.Addressing)] = true
+		}
+		for _, k := range trapKeys(in.Addressing) {
+			if !taken[k] {
+				util.InjectBuilderClientC09(k, &relaySubmitter{relayBase: relayBase{e: e, id: trapRelay, addr: k}})
 			}
 		}
 
@@ -939,7 +1008,7 @@ func runInBubble(t *testing.T, in Input) Obs {
 					if res, err := e.real.ProposerConfig(ctx, account{v}, pubKeyOf(v.Pub), feeAddr(in.Fallback), 30000000); err == nil && res != nil {
 						rec = &Resolved{Fee: feeID(res.FeeRecipient)}
 						for _, rc := range res.Relays {
-							rec.Relays = append(rec.Relays, RelayCfg{Addr: relayID(rc.Address), Fee: feeID(rc.FeeRecipient), Gas: rc.GasLimit})
+							rec.Relays = append(rec.Relays, RelayCfg{Addr: relayID(rc.Address, e.in.Addressing), Fee: feeID(rc.FeeRecipient), Gas: rc.GasLimit})
 						}
 					}
 				}
@@ -1217,7 +1286,28 @@ func addTag(tags []string, t string) []string {
 func inputTags(in Input) []string {
 	tags := append([]string{}, in.Tags...)
 	rounds := 0
+	if in.Addressing != "" {
+		tags = addTag(tags, "one-host:"+in.Addressing)
+	}
 	for _, op := range in.Ops {
+		if in.Addressing != "" {
+			// two distinct relays of one validator's settings on one host, told different things
+			for _, vi := range op.Vals {
+				if vi.Res == nil {
+					continue
+				}
+				for i, a := range vi.Res.Relays {
+					for _, b := range vi.Res.Relays[:i] {
+						if a.Addr != b.Addr {
+							tags = addTag(tags, "one-host:two-relays-of-a-validator")
+							if a.Fee != b.Fee || a.Gas != b.Gas {
+								tags = addTag(tags, "one-host:two-relays-different-values")
+							}
+						}
+					}
+				}
+			}
+		}
 		if !op.Cfg {
 			tags = addTag(tags, "nocfg")
 		}
@@ -1486,7 +1576,7 @@ func TestC11(t *testing.T) {
 			}
 		}
 		for _, tg := range tags {
-			if strings.Contains(tg, "in-flight") || tg == "activation" || strings.HasPrefix(tg, "job:") || strings.HasPrefix(tg, "preparer:") || tg == "timed" || tg == "slow-peer" || tg == "signer-takes-time" {
+			if strings.Contains(tg, "in-flight") || tg == "activation" || tg == "relays-on-one-host" || strings.HasPrefix(tg, "one-host:") || strings.HasPrefix(tg, "job:") || strings.HasPrefix(tg, "preparer:") || tg == "timed" || tg == "slow-peer" || tg == "signer-takes-time" {
 				col.Count("family:" + tg)
 			}
 		}
